@@ -20,6 +20,16 @@ import (
 // VerifStep; Blocked id is -1.
 var Hook func(id int)
 
+// yield marks a synchronisation operation: the scheduler may switch threads
+// before and after each one (id -2), which together with a race-detector pass
+// for unsynchronised accesses is the classic sufficient set of scheduling
+// points; the statement-level points of the repository's own code come on top.
+func yield() {
+	if h := Hook; h != nil {
+		h(-2)
+	}
+}
+
 func blocked() {
 	if h := Hook; h != nil {
 		h(-1)
@@ -36,29 +46,35 @@ func NewCond(l Locker) *Cond { return sync.NewCond(l) }
 type Mutex struct{ mu sync.Mutex }
 
 func (m *Mutex) Lock() {
+	yield()
 	for !m.mu.TryLock() {
 		blocked()
 	}
+	yield()
 }
-func (m *Mutex) Unlock()       { m.mu.Unlock() }
+func (m *Mutex) Unlock()       { yield(); m.mu.Unlock(); yield() }
 func (m *Mutex) TryLock() bool { return m.mu.TryLock() }
 
 type RWMutex struct{ mu sync.RWMutex }
 
 func (m *RWMutex) Lock() {
+	yield()
 	for !m.mu.TryLock() {
 		blocked()
 	}
+	yield()
 }
-func (m *RWMutex) Unlock()       { m.mu.Unlock() }
+func (m *RWMutex) Unlock()       { yield(); m.mu.Unlock(); yield() }
 func (m *RWMutex) TryLock() bool { return m.mu.TryLock() }
 func (m *RWMutex) RLock() {
+	yield()
 	for !m.mu.TryRLock() {
 		blocked()
 	}
+	yield()
 }
-func (m *RWMutex) RUnlock()       { m.mu.RUnlock() }
-func (m *RWMutex) TryRLock() bool { return m.mu.TryRLock() }
+func (m *RWMutex) RUnlock()        { yield(); m.mu.RUnlock(); yield() }
+func (m *RWMutex) TryRLock() bool  { return m.mu.TryRLock() }
 func (m *RWMutex) RLocker() Locker { return (*rlocker)(m) }
 
 type rlocker RWMutex
@@ -111,6 +127,8 @@ type Pool struct {
 }
 
 func (p *Pool) Get() any {
+	yield()
+	defer yield()
 	p.mu.Lock()
 	if n := len(p.items); n > 0 {
 		v := p.items[n-1]
@@ -129,6 +147,8 @@ func (p *Pool) Put(v any) {
 	if v == nil {
 		return
 	}
+	yield()
+	defer yield()
 	p.mu.Lock()
 	p.items = append(p.items, v)
 	p.mu.Unlock()
